@@ -47,9 +47,12 @@ class Stream(object):
 FUNCS = ['spyne.server.wsgi.WsgiApplication.__wsgi_input_to_iterable']
 
 
-@harness('C13', params=[(k, cl) for k in (0, 1, 2, 3) for cl in ('absent', 'empty', 'number')],
+_RP = lambda ks: [(k, cl) for k in ks for cl in ('absent', 'empty', 'number')]
+
+
+@harness('C13', tier_params={'quick': _RP((0, 1, 2, 3)), 'thorough': _RP((0, 1, 2, 3, 4, 5))},
          label=lambda p: 'chunks<=%d content-length=%s' % p, functions=FUNCS,
-         bounds={'stream': 'delivers at most K <= 3 non-empty chunks of any sizes 0 <= r <= requested, then EOF',
+         bounds={'stream': 'delivers at most K <= 3 non-empty chunks of any sizes 0 <= r <= requested, then EOF (K <= 5 in the thorough tier)',
                  'settings': 'max_content_length 0..99999, block_length 1..99999 (symbolic)',
                  'CONTENT_LENGTH': 'absent, empty, or the decimal text of any integer -99..999999'})
 def body_reader(sx, p):
